@@ -89,7 +89,7 @@ def short_type(t):
     """last path segment of a type name, without generic args and references"""
     t = t.strip()
     t = re.sub(r"^&(?:'\w+ )?(?:mut )?", '', t)
-    t = re.sub(r'<.*>$', '', t)
+    t = re.sub(r'(::)?<.*>$', '', t)
     return t.split('::')[-1]
 
 
